@@ -317,6 +317,27 @@ PROPS = {
                        "construction, so these are statements about the specification; the correspondence under real threads, processes and "
                        "both builds is what relates them to the code.",
     },
+    "C20": {
+        "level": "proof",
+        "rule": "The extension module is built from /repo's working tree and imported by CPython 3.11 (tools/pydrive.py). Every loadable "
+                "shipped model x every binding constructor that applies (Kitoken(bytes), from_file, from_<format>(bytes), from_<format>_file) "
+                "x 10 (quick; 3 on the third and fourth constructor) / 60 (thorough) texts: encode with default / explicit False / explicit "
+                "True flag, positional and keyword; decode of the result with the three flag forms; encode_all / decode_all with default and "
+                "explicit flags; a sequence with ids outside the vocabulary alone and in the middle of a batch (library error -> ValueError "
+                "with the library's message, first error in order); to_bytes, Kitoken(to_bytes()) and to_file / from_file round trips "
+                "compared by digest with the core serialization; inputs only Python can produce (lone surrogate, id >= 2^32, negative id, "
+                "bytes for str, non-list, None); malformed and empty files through every constructor. IMPLEQ lines compare the binding with "
+                "the core library called in-process on the same input; ENC / DEC lines carry the binding's answer to the Lean model. "
+                "Non-trivial: all.",
+        "trusted_base": CORE_TB + ["CPython 3.11 and tools/pydrive.py (the script that calls the binding)",
+                                   "NOT modelled: pyo3 argument extraction, GIL release, serde_pyobject (definition / config accessors), "
+                                   "mimalloc as global allocator, the release profile's abort-on-panic"],
+        "assumptions": ["the development profile used for the extension module behaves like the released one apart from panics unwinding"],
+        "explanation": "Lean theorems over the wrapper model (Model/Binding.lean): the flag defaults to off, a single call is the core call "
+                       "(value for value, exception for library error), a batch call is the list of single calls or the first error in "
+                       "order (collect_values, collect_first_error), and the binding cannot crash unless the core panics, which C18 excludes. "
+                       "Tied to packages/python/src/lib.rs by running the built module and comparing every answer.",
+    },
 }
 
 
